@@ -35,6 +35,18 @@ theorem int_of_kind (v : GoVal F) (h : v.kind.isInt = true) (hw : v.wf = true) :
 macro "coerce_fin" : tactic => `(tactic| (simp_all [applyAction, convTo, checkOut, GoVal.kind, Scalar.outKind, armSoundOut,
   GoVal.wf, kindRange, Kind.isInt, Kind.isFloat, fitsIn, intValue, inRange32, inRange64, wrapInt]))
 
+theorem C05_arm_fmtUint (ext : Ext F) (s : Scalar) (v : GoVal F)
+    (hs : armSoundOut s v.kind .fmtUint = true) (hw : v.wf = true) :
+    checkOut ext s v (applyAction ext .fmtUint v) = true := by
+  cases v with
+  | int k n =>
+    simp only [armSoundOut, GoVal.kind, Bool.and_eq_true, Bool.or_eq_true, beq_iff_eq] at hs
+    rcases hs.2 with rfl | rfl <;> simp [applyAction, checkOut, GoVal.kind, Scalar.outKind]
+  | flt k x =>
+    exfalso
+    cases k <;> simp [armSoundOut, GoVal.kind, Kind.isInt, GoVal.wf, kindRange, Kind.isFloat] at hs hw
+  | _ => simp [armSoundOut, GoVal.kind, Kind.isInt, kindRange] at hs
+
 /-- **C05_arm.** -/
 theorem C05_arm (ext : Ext F) (s : Scalar) (a : Action) (v : GoVal F)
     (hs : armSoundOut s v.kind a = true) (hw : v.wf = true) :
@@ -98,13 +110,8 @@ theorem C05_arm (ext : Ext F) (s : Scalar) (a : Action) (v : GoVal F)
   | timeParseKeep => simp [armSoundOut] at hs
   | convStrict t => simp [armSoundOut] at hs
   | parseInt32Keep => simp [armSoundOut] at hs
-  | fmtUint =>
-    cases v with
-    | int k n =>
-      simp only [armSoundOut, GoVal.kind, Bool.and_eq_true, Bool.or_eq_true, beq_iff_eq] at hs
-      rcases hs.2 with rfl | rfl <;> simp [applyAction, checkOut, GoVal.kind, Scalar.outKind]
-    | flt k x => cases k <;> simp_all [armSoundOut, GoVal.kind, Kind.isInt, GoVal.wf, kindRange, Kind.isFloat]
-    | _ => simp_all [armSoundOut, GoVal.kind, Kind.isInt, kindRange]
+  | parseFloatFinite => simp [armSoundOut] at hs
+  | fmtUint => exact C05_arm_fmtUint ext s v hs hw
 
 
 theorem armFor_mem (tbl : Table) (k : Kind) :
